@@ -171,7 +171,9 @@ Emit(main, last) ==
 
 Export ==
   done => /\ Emit("t1", "") /\ Emit("inc", "") /\ Emit("ren", "")
-          /\ (\A tgt \in InnerTargets : Emit("t1", tgt) /\ Emit("inc", tgt))
+          \* (replayed for a handful of chains only: a library that does not reject them does not return either)
+          /\ ((\A i \in DOMAIN chain : chain[i].bad = "" /\ chain[i].b = "omit" /\ ~chain[i].nest /\ chain[i].a \in {"plain", "super"})
+                 => \A tgt \in InnerTargets : Emit("t1", tgt) /\ Emit("inc", tgt))
           /\ (Len(chain) = 1 => (Emit("s1", "") /\ Emit("s0", "") /\ Emit("r1", "") /\ Emit("z1", "")))
           /\ (Len(chain) <= 2 => (Emit("t1", "t1") /\ Emit("t1", "nosuch") /\ Emit("mix1", "") /\ Emit("u1", "") /\ Emit("seq", "")))
 =============================================================================
